@@ -310,13 +310,27 @@ def replay_stages(case, cx):
         if final < pf * (1 - 1e-4) - 1e-9:
             return dict(reproduced=True, what="after the tie-breaking solves the worst month's intake is %r while the first-stage optimum was %r" % (final, pf), inputs=dict(case=case, supplies=vals),
                         observed=dict(first_stage=pf, final_min_month=final), key="stages/headline degraded by later solves")
+        # the headline is rebuilt from the per-food contributions of each month: their sum, from first principles
+        need = cfg["pop"] * cfg["kcals_daily"] * 30 / 1e9
+        g = lambda k, m: float(X[k][m] or 0.0) if k in X and X[k][m] is not None and not isinstance(X[k][m], (str,)) else 0.0
+        sums = []
+        for m in range(cfg["N"]):
+            eaten = (g("stored_food_to_humans", m) + g("crops_food_to_humans", m) + g("seaweed_to_humans", m) * cfg["seaweed_kcals"] + vals["milk"][m] + g("meat_eaten", m)
+                     + g("cellulosic_sugar_to_humans", m) + g("methane_scp_to_humans", m) + vals["gh"][m] + vals["fish"][m])
+            sums.append(eaten / need * 100)
+        if min(sums) < pf * (1 - 1e-4) - 1e-9:
+            return dict(reproduced=True, what="the contributions of the worst month add up to %r percent fed while the optimiser's optimum was %r" % (min(sums), pf), inputs=dict(case=case, supplies=vals),
+                        observed=dict(first_stage=pf, min_month_sum_of_contributions=min(sums)), key="stages/sum of contributions below the optimum")
     return dict(reproduced=False, what="the later stages' constraints allow a result below the optimum, but CBC did not use the room on the solver's instance nor on 4 generic ones: %s" % tried)
 
 
 def main(tier, seed, only=None):
     rep = vlib.Report(PID, tier, seed)
     thorough = tier == "thorough"
-    validate_csv(rep)
+    try:
+        validate_csv(rep)
+    except Exception as e:   # noqa  the real code raised on a concrete validation sample: the symbolic groups still run and decide; without a violation the run is inconclusive
+        rep.fail_inconclusive("concrete validation of the encoding could not run: %s: %s" % (type(e).__name__, str(e)[:200]))
     human = ["stored_food_to_humans", "seaweed_to_humans", "methane_scp_to_humans", "cellulosic_sugar_to_humans", "crops_food_to_humans", "meat_eaten"]
     chain = [dict(N=2, sym=human + ["crops_food_feed", "crops_food_biofuel"]), dict(N=1, sym=PREF)]
     if thorough:
